@@ -670,6 +670,59 @@ def check_loops(ctx, P, fns, ok17):
                 continue
             ctx.ob("b.loop", key, False, "loop without a registered termination argument (iterator type: %s)" % it_ty, loc)
     ctx.anchor("loops reachable from poll()", n, 3)
+    # recursion is a loop, too: no cycle in the call graph of the reachable set (none is needed by the library)
+    names = {f.name for f in fns}
+    edges = {f.name: set() for f in fns}
+    for f in fns:
+        for b, c in call_sites(f):
+            cal = c.get("callee") or ""
+            if cal in names:
+                edges[f.name].add(cal)
+        for b_, i_, s_ in __import__("analysis.query", fromlist=["stmts"]).stmts(f):
+            if "a" in s_ and s_["rv"].get("agg") == "closure" and s_["rv"]["closure"] in names:
+                edges[f.name].add(s_["rv"]["closure"])
+    color, cyc = {}, []
+
+    def dfs(u, path):
+        color[u] = 1
+        for v in sorted(edges.get(u, ())):
+            if color.get(v) == 1:
+                cyc.append(path[path.index(v):] + [v] if v in path else [u, v])
+            elif v not in color:
+                dfs(v, path + [v])
+        color[u] = 2
+    import sys
+    sys.setrecursionlimit(10000)
+    for f in fns:
+        if f.name not in color:
+            dfs(f.name, [f.name])
+    # self-recursion with a checked depth bound: at every recursive call site a dispatch discriminant has a known value, and entered with that
+    # value none of the recursive call sites is reachable (so the depth is at most 1)
+    proven = []
+    for c_ in list(cyc):
+        if len(set(c_)) != 1:
+            continue
+        fn_ = P.get(CR, c_[0])
+        sites_ = [b for b, cc in call_sites(fn_) if (cc.get("callee") or "") == fn_.name]
+        g0 = GuardAnalysis(fn_, P, mem_kill=True, modsets=ModSets(P))
+        ok_all = bool(sites_)
+        for b in sites_:
+            m = g0.must(b)
+            cands = [(k, vs) for k, vs in (m.items() if m else []) if k[0] == "discr" and vs[0] == "in" and len(vs[1]) == 1 and "self" in show(k[1])]
+            ok_site = False
+            for k, vs in cands:
+                from analysis.guards import Facts
+                g1 = GuardAnalysis(fn_, P, mem_kill=True, modsets=ModSets(P), entry_facts=[Facts({k: vs})])
+                if all(not g1.at(b2) for b2 in sites_):
+                    ok_site = True
+                    ctx.sample("%s: self-recursion bounded: entered with %s = %s no recursive call site is reachable" % (fn_.loc(b), show(k), sorted(vs[1])))
+                    break
+            ok_all = ok_all and ok_site
+        if ok_all:
+            proven.append(c_)
+    cyc = [c_ for c_ in cyc if c_ not in proven]
+    ctx.ob("b.loop", "no-recursion", not cyc, "recursive call cycle reachable from poll() without a termination argument: %s" % [" -> ".join(x.split("::")[-2] + "::" + x.split("::")[-1] for x in c_) for c_ in cyc[:2]],
+           P.get(CR, cyc[0][0]).loc(0) if cyc else "")
 
 
 def receive_loop_progress(P, f, head):
@@ -756,6 +809,32 @@ def check_support(ctx, P, cg, num, used):
             if f.name.startswith("fdl::parameters::ParametersBuilder::"):
                 n_assert += sum(1 for s in panic_sites(f, P, CR) if s["kind"] == "panic-call" and "assert" in s["mac"])
         ctx.anchor("assert!s in the ParametersBuilder setters (ranges of H-PARAM)", n_assert, 8)
+        check_builder_ranges(ctx, P)
+    if "H-APPS" in used:
+        # the documentation allows changing the application list while the station is offline: going offline must forget the
+        # application index (the whole station is re-created)
+        f = P.get(CR, "fdl::active::FdlActiveStation::set_state")
+        ok = False
+        if f is not None:
+            marks = {}
+            for b, i, s in stmts(f):
+                if "a" in s and mk_place(s["a"]) == (1, (("deref",),)):
+                    marks[(b, i)] = "whole"
+            for b, c in call_sites(f):
+                if mk_place(c["dest"]) == (1, (("deref",),)):
+                    marks[(b, None)] = "whole"
+            g = GuardAnalysis(f, P, mem_kill=True, modsets=ModSets(P), marks=marks)
+            ok = bool(marks)
+            for rb in f.return_blocks:
+                for fs in g.at(rb):
+                    off = [vs for k, vs in fs.items() if k[0] == "discr" and show(k[1]) in ("state", "self.connectivity_state") and vs == ("in", frozenset(["Offline"]))]
+                    if off and 0 in g.count_of(fs, "whole"):
+                        zero = [1 for k, vs in fs.items() if show(k).endswith("next_application") and vs == ("in", frozenset([0]))]
+                        if not zero:
+                            ok = False
+        ctx.ob("s.support", "H-APPS|offline-resets-application-index", ok,
+               "set_state(Offline) can return without re-creating the station / resetting next_application: a shorter application list after going "
+               "offline (allowed by the documentation) would be indexed out of bounds")
     if "I-ADDR125" in used:
         for fld in ("this_station", "next_station", "previous_station"):
             w = writers(fld, "u8")
@@ -840,6 +919,42 @@ def check_support(ctx, P, cg, num, used):
         ctx.ob("s.support", "I-PROBE|C18.a.range", not bad, "; ".join(o["detail"] for o in bad[:2]))
     # the closure of send_data_telegram gets exactly pdu_len bytes
     check_hof_support(ctx, P)
+
+
+def check_builder_ranges(ctx, P):
+    """H-PARAM support: every ParametersBuilder setter leaves the field it writes inside the range the analyses assume (the setter's own
+    assert! is what establishes it) - an interval proof per setter."""
+    n = 0
+    for f in P.crate_fns(CR):
+        if not f.name.startswith("fdl::parameters::ParametersBuilder::") or f.kind != "assoc":
+            continue
+        written = set()
+        for b, i, s in stmts_(f):
+            if "a" in s:
+                fl = [e.get("f") for e in s["a"].get("p", []) if isinstance(e, dict) and "f" in e]
+                if len(fl) >= 2 and fl[0] == "0":
+                    written.add(fl[1])
+        for kind, path, lo, hi in PARAM_FIELDS:
+            fld = path[0]
+            if fld not in written:
+                continue
+            n += 1
+            na = NumAnalysis(f, P)
+            v = ("v", 1, (("deref",), ("f", "0"), ("f", fld)))
+            bad = []
+            for rb in f.return_blocks:
+                for st in na.states_at_term(rb):
+                    if not (st.z.lo(v) >= lo and st.z.hi(v) <= hi):
+                        bad.append("[%s,%s]" % (st.z.lo(v), st.z.hi(v)))
+            ctx.ob("s.support", "H-PARAM|builder-range|%s|%s" % (f.name.split("::")[-1], fld), not bad,
+                   "ParametersBuilder::%s can leave %s in %s, outside the range %s..=%s that the station code relies on" % (
+                       f.name.split("::")[-1], fld, sorted(set(bad))[:2], lo, hi), f.loc(0))
+    ctx.anchor("range-establishing ParametersBuilder setters", n, 4)
+
+
+def stmts_(f):
+    from analysis.query import stmts
+    return stmts(f)
 
 
 def check_counters(ctx, P):
